@@ -52,7 +52,7 @@ impl<T: Float> KahanSum<T> {
     /// Return the current value of the sum
     ///
     pub fn value(&self) -> T {
-        self.sum + self.compensation
+        self.sum - self.compensation
     }
 }
 
@@ -77,7 +77,7 @@ impl<T: Float + core::fmt::Display> core::fmt::Display for KahanSum<T> {
 impl<T: Float> core::ops::AddAssign<Self> for KahanSum<T> {
     fn add_assign(&mut self, rhs: Self) {
         kahan_add(&mut self.sum, rhs.sum, &mut self.compensation);
-        kahan_add(&mut self.sum, rhs.compensation, &mut self.compensation);
+        kahan_add(&mut self.sum, -rhs.compensation, &mut self.compensation);
     }
 }
 
@@ -125,7 +125,11 @@ fn kahan_add<T: Float>(current_sum: &mut T, x: T, compensation: &mut T) {
     let c = *compensation;
     let y = x - c;
     let t = sum + y;
-    *compensation = (t - sum) - y;
+    *compensation = if sum.abs() >= y.abs() {
+        (t - sum) - y
+    } else {
+        (t - y) - sum
+    };
     *current_sum = t;
 }
 
